@@ -118,6 +118,30 @@ where
         }
         v
     };
+    // Iterator's provided methods on a clone must agree with stepping (count / last / nth)
+    {
+        let cnt = call(ctx, || it.clone().count());
+        if cnt != Some(via_clone.len()) {
+            ctx.note("C08", format!("count() = {cnt:?} but stepping yields {} items", via_clone.len()));
+        }
+        let last = call(ctx, || it.clone().last()).flatten().map(|k| ctx.jk(k));
+        if last.as_ref() != via_clone.last() {
+            ctx.note("C08", format!("last() = {last:?} but stepping ends with {:?}", via_clone.last()));
+        }
+        for j in [0usize, 1, via_clone.len()] {
+            let got = call(ctx, || {
+                let mut c = it.clone();
+                let x = c.nth(j);
+                (x, c.next())
+            });
+            if let Some((x, after)) = got {
+                let (x, after) = (x.map(|k| ctx.jk(k)), after.map(|k| ctx.jk(k)));
+                if x.as_ref() != via_clone.get(j) || after.as_ref() != via_clone.get(j + 1) {
+                    ctx.note("C08", format!("nth({j}) = {x:?} then next() = {after:?}, but stepping yields {via_clone:?}"));
+                }
+            }
+        }
+    }
     if let Some(sdbg) = it.debug_string(ctx) {
         match toks_to_items(ctx, &parse_debug(&sdbg), "key") {
             Some(v) if v == via_clone => {}
